@@ -4,6 +4,7 @@ numpy.random.choice, and independent brute-force statements of the C19 property 
 Every `chk_*` function takes (ctx, case) with a JSON-able `case`, calls the real strawberryfields
 function(s) and reports each violated promise with ctx.fail(signature, text, {"chk": name, "case": case}).
 They are the property-level oracle and the replay entry points at the same time."""
+import copy
 import itertools
 import math
 from contextlib import contextmanager
@@ -54,6 +55,8 @@ def mk_graph(gd):
     g = nx.Graph()
     g.add_nodes_from(gd["nodes"])
     g.add_edges_from(tuple(e) for e in gd["edges"])
+    for (u, v), w in zip(gd["edges"], gd.get("ew", [])):   # edge attributes must not influence anything
+        g[u][v]["weight"] = w
     return g
 
 
@@ -119,12 +122,21 @@ def rand_sel(rng, gd, allow_degree=True):
     if r < 0.5 and allow_degree:
         return "degree"
     hi = rng.choice([1, 2, 3, 9])
+    r = rng.random()
+    if r < 0.2:     # quarter-integer float weights, some negative (the model sees 4*w)
+        return dict(w=[rng.randint(-3, hi) for _ in gd["nodes"]], scale=4)
+    if r < 0.35:    # pairwise distinct weights: the rule leaves no tie
+        w = list(range(len(gd["nodes"])))
+        rng.shuffle(w)
+        return dict(w=w)
     return dict(w=[rng.randint(0, hi) for _ in gd["nodes"]])
 
 
 def py_sel(sel, rng=None):
     if isinstance(sel, dict):
         w = sel["w"]
+        if sel.get("scale"):
+            w = [x / sel["scale"] for x in w]
         return np.array(w) if (sel.get("np") or (len(w) % 2 == 0)) else list(w)
     return sel
 
@@ -398,6 +410,49 @@ def _call(f, *a, **k):
         return (type(e).__name__, str(e))
 
 
+# ------------------------------------------------------------------------------------------ purity of inputs
+
+
+def snapshot_graph(g):
+    return (list(g.nodes), {n: (dict(d), {m: dict(e) for m, e in g.adj[n].items()}) for n, d in g.nodes(data=True)})
+
+
+def call_pure(ctx, rp, name, g, f, *args, **kw):
+    """_call + the promise that the graph object and every list / array argument are left as they were"""
+    before_g = snapshot_graph(g) if g is not None else None
+    def cp(x):
+        if isinstance(x, np.ndarray):
+            return x.copy()
+        if isinstance(x, list):
+            return [cp(v) for v in x]
+        if isinstance(x, tuple):
+            return tuple(cp(v) for v in x)
+        if isinstance(x, dict):
+            return {k: cp(v) for k, v in x.items()}
+        return x      # graphs (compared by snapshot), scalars, strings
+
+    before = cp((args, kw))
+    st, r = _call(f, *args, **kw)
+    if g is not None and snapshot_graph(g) != before_g:
+        ctx.fail("mutates-input-graph:" + name, f"{name} changed the graph object it was given (nodes/edges/attributes differ after the call)", rp)
+
+    def same(a, b):
+        if isinstance(a, np.ndarray) or isinstance(b, np.ndarray):
+            return isinstance(a, np.ndarray) and isinstance(b, np.ndarray) and a.shape == b.shape and bool(np.all(a == b))
+        if isinstance(a, (list, tuple)):
+            return type(a) is type(b) and len(a) == len(b) and all(same(x, y) for x, y in zip(a, b))
+        if isinstance(a, dict):
+            return isinstance(b, dict) and a.keys() == b.keys() and all(same(a[k], b[k]) for k in a)
+        if hasattr(a, "nodes") and hasattr(a, "edges"):
+            return True    # graphs are compared by snapshot above
+        return a == b
+
+    if not same(before, (args, kw)):
+        ctx.fail("mutates-input-argument:" + name, f"{name} changed one of its list/array arguments in place: before {before[0][:1]}…", rp)
+    return st, r
+
+
+
 def chk_is_clique(ctx, case):
     from strawberryfields.apps import clique
     gd, S = case["g"], case["S"]
@@ -409,7 +464,7 @@ def chk_is_clique(ctx, case):
     if bool(got) != want:
         ctx.fail("is_clique-wrong", f"is_clique of nodes {sorted(set(S))} in graph {gd} = {got}, pairwise check {want}", rp)
     for name, bf in (("c_0", bf_c0), ("c_1", bf_c1)):
-        st, r = _call(getattr(clique, name), list(S), g)
+        st, r = call_pure(ctx, rp, name, g, getattr(clique, name), list(S), g)
         if want:
             if st != "ok":
                 ctx.fail(f"{name}-raises-on-clique", f"{name}({S}, {gd}) raises {st}: {r}", rp)
@@ -426,7 +481,7 @@ def chk_grow(ctx, case):
     ctx.oracle_cases += 1
     rp = dict(chk="grow", case=case)
     with scripted(picks):
-        st, r = _call(clique.grow, list(S), g, node_select=py_sel(sel))
+        st, r = call_pure(ctx, rp, "grow", g, clique.grow, list(S), g, node_select=py_sel(sel))
     valid = set(S) <= set(gd["nodes"]) and bf_is_clique(adj, set(S)) and not bad_weights(gd, sel)
     if not valid:
         if st != "ValueError":
@@ -457,7 +512,7 @@ def chk_swap(ctx, case):
     ctx.oracle_cases += 1
     rp = dict(chk="swap", case=case)
     with scripted(picks):
-        st, r = _call(clique.swap, list(S), g, node_select=py_sel(sel))
+        st, r = call_pure(ctx, rp, "swap", g, clique.swap, list(S), g, node_select=py_sel(sel))
     valid = set(S) <= set(gd["nodes"]) and bf_is_clique(adj, set(S)) and not bad_weights(gd, sel)
     if not valid:
         if st != "ValueError":
@@ -497,7 +552,7 @@ def chk_shrink(ctx, case):
     ctx.oracle_cases += 1
     rp = dict(chk="shrink", case=case)
     with scripted(picks):
-        st, r = _call(clique.shrink, list(S), g, node_select=py_sel(sel))
+        st, r = call_pure(ctx, rp, "shrink", g, clique.shrink, list(S), g, node_select=py_sel(sel))
     if not set(S) <= set(gd["nodes"]) or bad_weights(gd, sel):
         if st != "ValueError":
             ctx.fail("shrink-accepts-invalid-input", f"shrink({S}, {gd}, {sel}) with foreign nodes / wrong number of weights gives {st}: {r}", rp)
@@ -603,7 +658,7 @@ def chk_resize(ctx, case):
     ctx.oracle_cases += 1
     rp = dict(chk="resize", case=case)
     with scripted(picks):
-        st, r = _call(subgraph.resize, list(S), g, lo, hi, node_select=py_sel(sel))
+        st, r = call_pure(ctx, rp, "resize", g, subgraph.resize, list(S), g, lo, hi, node_select=py_sel(sel))
     what = f"resize({S}, {gd}, {lo}, {hi}, {sel})"
     if resize_expect_error(gd, S, lo, hi, sel):
         if st != "ValueError":
@@ -667,6 +722,9 @@ def chk_search(ctx, case):
     from strawberryfields.apps import subgraph
     gd, subs, lo, hi, mc, sel, picks = (case["g"], case["subs"], case["min"], case["max"], case["maxCount"],
                                         case["sel"], case.get("picks", []))
+    mckw = dict(max_count=mc)
+    if case.get("default_max_count"):     # documented default: 10
+        mc, mckw = 10, {}
     g, adj = mk_graph(gd), adjsets(gd)
     ctx.oracle_cases += 1
     rp = dict(chk="search", case=case)
@@ -681,7 +739,7 @@ def chk_search(ctx, case):
     subgraph.resize = rec_resize
     try:
         with scripted(picks):
-            st, r = _call(subgraph.search, [list(s) for s in subs], g, lo, hi, max_count=mc, node_select=py_sel(sel))
+            st, r = call_pure(ctx, rp, "subgraph.search", g, subgraph.search, [list(s) for s in subs], g, lo, hi, node_select=py_sel(sel), **mckw)
     finally:
         subgraph.resize = real_resize
     what = f"search({subs}, {gd}, {lo}, {hi}, max_count={mc}, {sel})"
